@@ -820,6 +820,192 @@ def oracle_circular(a):
     return None
 
 
+# ----------------------------------------------------------------- wrapper fields (CreateWrapperFields)
+#
+# input: {"enabled": bool, "attrs": [{tag, name, ns, "src": {tag, name, ns} | None, "raw": {...} | None}]}
+# `raw` describes what the class really contains for that attr (the harness builds it); `src` is what
+# the DOCUMENTED rules of validate_attr / validate_source make of it (own reading, below): the attr the
+# element is swapped with, or None. The model gets `src`, the real handler gets the classes.
+
+
+def doc_wrapper_source(x):
+    """The documented rules: the attr is an element with one non-native type, neither optional nor a
+    list; its class has no extensions and exactly one attr, an element, not optional, no forward
+    reference, in the namespace of the wrapping attr."""
+    raw = x.get("raw")
+    if not raw:
+        return None
+    if x["tag"] != "Element" or raw["optional"] or raw["list"]:
+        return None
+    if raw["extension"] or len(raw["attrs"]) != 1:
+        return None
+    s0 = raw["attrs"][0]
+    if s0["tag"] != "Element" or s0["optional"] or s0["forward"] or (s0["ns"] or "") != (x["ns"] or ""):
+        return None
+    return {"tag": s0["tag"], "name": s0["name"], "ns": s0["ns"]}
+
+
+def run_wrapper_fields(a):
+    """the real CreateWrapperFields on a class built from the input; returns the target class"""
+    from xsdata.codegen.handlers import CreateWrapperFields
+    from xsdata.codegen.models import AttrType, Extension, Restrictions
+
+    cfg = GeneratorConfig()
+    cfg.output.wrapper_fields = bool(a["enabled"])
+    container = ClassContainer(cfg)
+    string = lambda: AttrType(qname="{http://www.w3.org/2001/XMLSchema}string", native=True)  # noqa: E731
+    target = Class(qname="t", tag=Tag.COMPLEX_TYPE, location="l")
+    roots = []
+    for i, x in enumerate(a["attrs"]):
+        raw = x.get("raw")
+        if not raw:
+            target.attrs.append(Attr(tag=x["tag"], name=x["name"], namespace=x["ns"], types=[string()]))
+            continue
+        q = f"w{i}"
+        sattrs = [
+            Attr(tag=s0["tag"], name=s0["name"], namespace=s0["ns"],
+                 types=[AttrType(qname="t", forward=True)] if s0["forward"] else [string()],
+                 restrictions=Restrictions(min_occurs=0 if s0["optional"] else 1, max_occurs=5 if s0["many"] else 1))
+            for s0 in raw["attrs"]
+        ]
+        scls = Class(qname=q, tag=Tag.COMPLEX_TYPE, location="l", attrs=sattrs)
+        if raw["extension"]:
+            scls.extensions.append(Extension(tag=Tag.EXTENSION, type=string(), restrictions=Restrictions()))
+        if raw["inner"]:
+            scls.parent = target
+            target.inner.append(scls)
+        else:
+            roots.append(scls)
+        target.attrs.append(Attr(tag=x["tag"], name=x["name"], namespace=x["ns"], types=[AttrType(qname=q, forward=raw["inner"])],
+                                 restrictions=Restrictions(min_occurs=0 if raw["optional"] else 1, max_occurs=5 if raw["list"] else 1)))
+    container.extend([target, *roots])
+    CreateWrapperFields(container).process(target)
+    return target
+
+
+def impl_wrapper_fields(a):
+    return _guard(lambda: [x.name for x in run_wrapper_fields(a).attrs])
+
+
+WRAP_NAMES = ["item", "Item", "item_", "i-tem", "items", "a", "A", "a_Element", "item_Element", "item_1", "class", "class_value", "value", "b"]
+
+
+def _wrap_attr(rng, names, p_raw):
+    x = {"tag": rng.choice(["Element", "Element", "Element", "Attribute"]), "name": rng.choice(names), "ns": rng.choice([None, None, "x"]), "raw": None}
+    if rng.random() < p_raw:
+        k = rng.random()
+        n_src = 1 if k < 0.85 else rng.choice([0, 2])
+        x["raw"] = {
+            "inner": rng.random() < 0.35, "optional": rng.random() < 0.1, "list": rng.random() < 0.1, "extension": rng.random() < 0.07,
+            "attrs": [{"tag": "Element" if rng.random() < 0.9 else "Attribute", "name": rng.choice(names),
+                       "ns": x["ns"] if rng.random() < 0.9 else "y", "optional": rng.random() < 0.08, "forward": rng.random() < 0.05,
+                       "many": rng.random() < 0.5} for _ in range(n_src)],
+        }
+    x["src"] = doc_wrapper_source(x)
+    return x
+
+
+def gen_wrapper_fields(rng, tier):
+    def el(name, ns=None, tag="Element"):
+        return {"tag": tag, "name": name, "ns": ns, "raw": None, "src": None}
+
+    def wr(name, inner_name, inner=False, ns=None, many=True, **kw):
+        x = {"tag": "Element", "name": name, "ns": ns,
+             "raw": {"inner": inner, "optional": kw.get("optional", False), "list": kw.get("list", False), "extension": kw.get("extension", False),
+                     "attrs": [{"tag": "Element", "name": inner_name, "ns": ns, "optional": kw.get("src_optional", False),
+                                "forward": False, "many": many}]}}
+        x["src"] = doc_wrapper_source(x)
+        return x
+
+    hand = [
+        [wr("items", "item"), el("item")],                       # wrapper of a ROOT-LEVEL class next to its namesake
+        [el("item"), wr("items", "item")],
+        [wr("items", "item", inner=True), el("item")],           # ... of an inner class
+        [wr("items", "item"), wr("things", "item")],             # two wrappers, one inner name
+        [wr("items", "item"), wr("things", "Item", inner=True)],
+        [wr("items", "item", inner=True), wr("things", "item"), el("item")],
+        [wr("things", "item"), el("a"), wr("items", "item", inner=True)],   # the last attr decides nothing
+        [wr("items", "item", inner=True), el("a"), wr("things", "b")],
+        [wr("items", "item"), el("item", tag="Attribute")],
+        [wr("items", "item"), el("item_Element"), el("item")],
+        [wr("items", "item", optional=True), el("item")],        # no wrapper candidates: untouched
+        [wr("items", "item", src_optional=True), el("item")],
+        [wr("items", "item", extension=True), el("item")],
+        [wr("items", "class"), el("class_value")],
+        [el("a"), el("a")],                                      # nothing wrapped: duplicates are not this handler's business
+        [wr("items", "item", ns="x"), el("item", ns="x")],
+        [],
+    ]
+    for h in hand:
+        for enabled in (True, False):
+            yield {"enabled": enabled, "attrs": h}
+    # one wrapper (root-level / inner) against every sibling of the pool, both orders
+    for inner in (False, True):
+        for inner_name in ("item", "Item", "class"):
+            for sib in WRAP_NAMES:
+                for tag in ("Element", "Attribute"):
+                    yield {"enabled": True, "attrs": [wr("w", inner_name, inner=inner), el(sib, tag=tag)]}
+                    yield {"enabled": True, "attrs": [el(sib, tag=tag), wr("w", inner_name, inner=inner)]}
+    # two wrappers x {root, inner}^2 x inner names
+    for i1, i2 in itertools.product((False, True), repeat=2):
+        for n1, n2 in itertools.product(("item", "Item", "i-tem", "b"), repeat=2):
+            yield {"enabled": True, "attrs": [wr("w1", n1, inner=i1), wr("w2", n2, inner=i2), el("item")]}
+    for _ in range(1500 if tier == "quick" else 20000):
+        names = rng.sample(WRAP_NAMES, rng.randint(2, 5))
+        yield {"enabled": rng.random() < 0.9, "attrs": [_wrap_attr(rng, names, 0.5) for _ in range(rng.randint(1, 5))]}
+
+
+def classify_wrapper(a, o):
+    n = sum(1 for x in a["attrs"] if x["src"])
+    if not a["enabled"]:
+        return "option off"
+    if not n:
+        return "no wrapper"
+    kinds = {("inner" if x["raw"]["inner"] else "root") for x in a["attrs"] if x["src"]}
+    names = [(x["src"] or x)["name"] for x in a["attrs"]]
+    clash = len({own_slug(n_) for n_ in names}) < len(names)
+    return f"{'+'.join(sorted(kinds))} wrapper{'s' if n > 1 else ''}, {'slug clash' if clash else 'no clash'}"
+
+
+def oracle_wrapper(a):
+    """PROPERTY (independent of how the handler does it): with wrapper fields on, once the handler
+    has replaced at least one element by the element inside it, the class has no two fields of one
+    python name (its fields before the handler are the business of the earlier handlers). Also: an attr
+    that is no wrapper candidate by the documented rules keeps its type."""
+    try:
+        target = run_wrapper_fields(a)
+    except Exception as e:  # noqa: BLE001
+        return f"CreateWrapperFields raised {type(e).__name__}: {e}"
+    wrapped = [i for i, x in enumerate(target.attrs) if x.wrapper is not None]
+    should = [i for i, x in enumerate(a["attrs"]) if a["enabled"] and x["src"]]
+    if wrapped != should:
+        return f"attrs {should} are wrapper candidates by the documented rules, the handler wrapped {wrapped}"
+    if not wrapped:
+        return None
+    f = F()
+    finals = [f.field_name(x.name, "t") for x in target.attrs]
+    seen = {}
+    for i, n in enumerate(finals):
+        if n in seen:
+            j = seen[n]
+            return (f"wrapper fields: attrs #{j} and #{i} both become field {n!r} (after the handler: "
+                    f"{target.attrs[j].name!r}, {target.attrs[i].name!r})")
+        seen[n] = i
+    return None
+
+
+def covered_wrapper(a, msg):
+    m = re.search(r"both become field '([^']*)' \(after the handler: ('(?:[^'\\]|\\.)*'), ('(?:[^'\\]|\\.)*')\)$", msg)
+    if not m:
+        return None
+    final, n1, n2 = m.group(1), ast.literal_eval(m.group(2)), ast.literal_eval(m.group(3))
+    # only the documented safe_name makes two names of different slugs equal
+    if own_slug(n1) != own_slug(n2) and ref_safe_name(n1, "value", "snakeCase") == final == ref_safe_name(n2, "value", "snakeCase"):
+        return "C07-safe-prefix-collision"
+    return None
+
+
+
 # ----------------------------------------------------------------- inner classes / reference classes
 
 
@@ -1155,6 +1341,9 @@ CORRS = [
          classify=lambda a, o: "err" if "err" in o else (
              ("child" if o["ok"][0] != [x["name"] for x in a["target"]] else "parent") + " renamed" +
              (" +index" if any(re.search(r"_\d+$", n) and n not in [x["name"] for x in a["target"] + a["base"]] for n in o["ok"][0] + o["ok"][1]) else ""))),
+    Corr("names.wrapper_fields", gen_wrapper_fields, impl_wrapper_fields,
+         nontrivial=lambda a, o: a["enabled"] and any(x["src"] for x in a["attrs"]),
+         describe="CreateWrapperFields.process on one class (wrap, then rename_duplicate_attributes)", classify=classify_wrapper),
     Corr("names.rename_inners", gen_rename_inners, impl_rename_inners, nontrivial=lambda a, o: len(a["names"]) > 1,
          describe="VacuumInnerClasses.rename_duplicate_inners: names of the inner classes of one class",
          classify=lambda a, o: "err" if "err" in o else ("renamed" if o["ok"] != a["names"] else "unchanged")),
@@ -1631,6 +1820,18 @@ def build_xsd(spec):
             # a name (xs:string), [name, type] or [name, None, [elements]] (anonymous complexType, any depth)
             if isinstance(e, str):
                 out.append(f'<xs:element name="{esc(e)}" type="xs:string"/>')
+            elif len(e) == 4:
+                # [name, type | None, [elements] | None, occurrence "1" | "+" | "?" | "*"]: the same three
+                # kinds of element with an explicit occurrence (REQUIRED typed / anonymous elements are what
+                # CreateWrapperFields looks at; the short forms above make them optional)
+                occ = {"1": "", "+": ' maxOccurs="unbounded"', "?": ' minOccurs="0"', "*": ' minOccurs="0" maxOccurs="unbounded"'}[e[3]]
+                if e[2] is not None:
+                    out.append(f'<xs:element name="{esc(e[0])}"{occ}><xs:complexType><xs:sequence>')
+                    for ie in e[2]:
+                        emit(ie, False)
+                    out.append("</xs:sequence></xs:complexType></xs:element>")
+                else:
+                    out.append(f'<xs:element name="{esc(e[0])}" type="{esc(e[1]) if e[1] else "xs:string"}"{occ}/>')
             elif len(e) == 2:
                 out.append(f'<xs:element name="{esc(e[0])}" type="{esc(e[1])}" minOccurs="0"/>')
             else:
@@ -2111,7 +2312,7 @@ def _element_names(elements):
     for e in elements:
         out.append(e if isinstance(e, str) else e[0])
         if not isinstance(e, str) and len(e) > 2:
-            out += _element_names(e[2])
+            out += _element_names(e[2] or [])
     return out
 
 
@@ -2199,6 +2400,69 @@ def ref_inner_names(locals_, outer_local):
     return out
 
 
+def _wrapper_on_cycle(a):
+    """C07-wrapper-field-drops-circular-flag, read off the SOURCE (xsd kind): some complex type T has a
+    required single element whose class (a schema type without attributes / base, or an anonymous type)
+    holds exactly one required element of a complex type D, and D leads back to T through element types
+    or base types. (Then DetectCircularReferences, which runs before CreateWrapperFields, has judged the
+    reference T -> wrapper class; the wrapped field T -> D is a copy of the wrapper's attr, whose flag
+    belongs to another class.)"""
+    if a.get("kind") != "xsd" or not a.get("opts", {}).get("wrapper"):
+        return False
+    types = {t["name"]: t for t in a["spec"]["types"]}
+
+    def refs(elements):
+        out = set()
+        for e in elements:
+            if isinstance(e, str):
+                continue
+            if len(e) > 2 and e[2] is not None:
+                out |= refs(e[2])
+            elif e[1]:
+                out.add(e[1])
+        return out
+
+    def succ(name):
+        t = types.get(name)
+        if not t:
+            return set()
+        return refs(t["elements"]) | ({t["base"]} if t.get("base") else set())
+
+    def reaches(src, dst):
+        seen, todo = set(), [src]
+        while todo:
+            x = todo.pop()
+            if x in seen:
+                continue
+            seen.add(x)
+            todo.extend(succ(x))
+        return dst in seen
+
+    def single_required_complex(elements):
+        if len(elements) != 1 or isinstance(elements[0], str) or len(elements[0]) != 4:
+            return None
+        e = elements[0]
+        return e[1] if e[3] in ("1", "+") and e[2] is None and e[1] in types else None
+
+    def walk(owner, elements):
+        for e in elements:
+            if isinstance(e, str) or len(e) != 4:
+                continue
+            if e[3] == "1":
+                if e[2] is not None:
+                    d = single_required_complex(e[2])
+                else:
+                    w = types.get(e[1])
+                    d = single_required_complex(w["elements"]) if w and not w["attributes"] and not w.get("base") else None
+                if d and reaches(d, owner):
+                    return True
+            if e[2] is not None and walk(owner, e[2]):
+                return True
+        return False
+
+    return any(walk(t["name"], t["elements"]) for t in a["spec"]["types"])
+
+
 def covered_pipeline(a, msg, msgs=None):
     """Is the failure `msg` of the end-to-end run on `a` one of the listed findings? (Returns its id.)
     C07-safe-prefix-collision: only a duplicate-name message can be, and only when the *documented*
@@ -2209,6 +2473,14 @@ def covered_pipeline(a, msg, msgs=None):
     C07-field-named-like-inner-class: one failure kind, and the documented names of the elements involved
     must be the ones of the message. (C07-dunder-inner-class-mangled is repaired, c07e-01: an
     AttributeError for a mangled `T.__a` is a violation again.)"""
+    if msg.startswith("generation gave up on a valid source with an internal consistency error: CodegenError('Circular Dependencies Found'"):
+        # C07-wrapper-field-drops-circular-flag: the source has a wrapper candidate on a reference cycle, and
+        # the very same source generates, imports and binds with wrapper_fields off
+        if _wrapper_on_cycle(a):
+            off = {**a, "opts": {**a.get("opts", {}), "wrapper": False}}
+            if not any("Circular Dependencies Found" in x for x in pipeline_failures(off)):
+                return "C07-wrapper-field-drops-circular-flag"
+        return None
     m = re.search(r"Compound field contains ambiguous types; choice types (\[.*\])$", msg)
     if m:
         # two choices of one compound field have the same type. The same failure as a duplicate class
@@ -2347,6 +2619,40 @@ def gen_pipeline(rng, tier):
     yield xsd([ty("_", [["_", None, ["p"]]])], [{"name": "r", "type": "_"}], class_case="originalCase")
     yield xsd([ty("t", ["__a", "_a", "b"])], [{"name": "r", "type": "t"}], field_case="originalCase")
     yield xsd([ty("__t", ["a"]), ty("_t", ["a"])], [{"name": "r", "type": "__t"}, {"name": "s", "type": "_t"}], class_case="originalCase")
+    # WRAPPER FIELDS: a required element whose class holds exactly one required element is replaced by that
+    # element and takes its NAME, which a sibling (or a second wrapper) may already have. The wrapper class is a
+    # global complexType, an anonymous type (inner class), or an anonymous type promoted by unnest_classes.
+    for sib in ("item", "Item", "item_", "i-tem"):
+        for occ in ("+", "1"):
+            for sib_first in (False, True):
+                sibs = [sib]
+                glob = [["items", "ItemsType", None, "1"]]
+                anon = [["items", None, [["item", None, None, occ]], "1"]]
+                yield xsd([ty("ItemsType", [["item", None, None, occ]]), ty("t", sibs + glob if sib_first else glob + sibs)],
+                          [{"name": "r", "type": "t"}], wrapper=True)
+                yield xsd([ty("t", sibs + anon if sib_first else anon + sibs)], [{"name": "r", "type": "t"}], wrapper=True)
+                yield xsd([ty("t", sibs + anon if sib_first else anon + sibs)], [{"name": "r", "type": "t"}], wrapper=True, unnest=True)
+    # two wrappers with one inner name (root + root, root + inner, inner + root), a sibling attribute, a typed inner element
+    yield xsd([ty("A", [["item", None, None, "+"]]), ty("B", [["Item", None, None, "+"]]),
+               ty("t", [["as", "A", None, "1"], ["bs", "B", None, "1"]])], [{"name": "r", "type": "t"}], wrapper=True)
+    yield xsd([ty("A", [["item", None, None, "+"]]),
+               ty("t", [["as", "A", None, "1"], ["bs", None, [["item", None, None, "+"]], "1"]])], [{"name": "r", "type": "t"}], wrapper=True)
+    yield xsd([ty("A", [["item", None, None, "+"]]),
+               ty("t", [["bs", None, [["item", None, None, "+"]], "1"], "x", ["as", "A", None, "1"]])], [{"name": "r", "type": "t"}], wrapper=True)
+    yield xsd([ty("A", [["item", None, None, "+"]]), ty("t", [["as", "A", None, "1"]], ["item"])], [{"name": "r", "type": "t"}], wrapper=True)
+    yield xsd([ty("U", ["x"]), ty("A", [["item", "U", None, "+"]]), ty("t", [["as", "A", None, "1"], ["item", "U", None, "?"]])],
+              [{"name": "r", "type": "t"}], wrapper=True, compound=True)
+    yield xsd([ty("A", [["class", None, None, "+"]]), ty("t", [["as", "A", None, "1"], "class_value"])], [{"name": "r", "type": "t"}], wrapper=True)
+    # a wrapper on a reference cycle (C07-wrapper-field-drops-circular-flag)
+    yield xsd([ty("X", [["a1", None, [["n", "N", None, "+"]], "1"]]), ty("N", [["x", "X"]])], [{"name": "r", "type": "X"}], wrapper=True, unnest=True)
+    yield xsd([ty("X", [["a1", None, [["n", "N", None, "+"]], "1"]]), ty("N", [["x", "X"]])], [{"name": "r", "type": "X"}], wrapper=True)
+    yield xsd([ty("W", [["n", "N", None, "1"]]), ty("X", [["a1", "W", None, "1"]]), ty("N", [["x", "X", None, "*"]])], [{"name": "r", "type": "X"}], wrapper=True)
+    # samples: every element class is a root-level class
+    yield {"kind": "xml", "doc": "<root><items><item>a</item><item>b</item></items><item>1</item></root>", "opts": {"wrapper": True}}
+    yield {"kind": "xml", "doc": "<root><Item>1</Item><items><item>a</item><item>b</item></items></root>", "opts": {"wrapper": True}}
+    yield {"kind": "xml", "doc": "<root><as><item>a</item></as><bs><item>a</item><item>b</item></bs></root>", "opts": {"wrapper": True}}
+    yield {"kind": "json", "doc": {"items": {"item": ["a", "b"]}, "item": 1}, "opts": {"wrapper": True}}
+    yield {"kind": "json", "doc": {"item_": 1, "items": {"item": ["a", "b"]}}, "opts": {"wrapper": True, "unnest": True}}
     yield xsd([ty("None"), ty("NoneType")], [{"name": "r", "type": "None"}])
     yield xsd([ty("a"), ty("A")], [{"name": "a", "type": "A"}])
     yield xsd(enums=[{"name": "e", "values": ["1", "value_1", "a", "A"]}])
@@ -2408,14 +2714,22 @@ def gen_pipeline(rng, tier):
                 else:
                     tgt = rng.choice(names)
                 if r2 < 0.55:
-                    els.append([rng.choice(enames), tgt])
+                    if rng.random() < 0.3:
+                        # explicit occurrence: required / repeating typed elements (wrapper-field candidates)
+                        els.append([rng.choice(enames), tgt, None, rng.choice(["1", "1", "+", "?", "*"])])
+                    else:
+                        els.append([rng.choice(enames), tgt])
                 elif r2 < 0.7:
                     # (sibling elements get different names: one name with two types is not a valid schema)
                     n1, n2, n3, n4, n5 = rng.sample(enames, 5)
                     inner_els = [[n1, rng.choice(names)], n2]
                     if rng.random() < 0.3:
                         inner_els.append([n3, None, [n4, [n5, rng.choice(names)]]])
-                    els.append([rng.choice(enames), None, inner_els])
+                    if rng.random() < 0.3:
+                        # a required element with an anonymous type of ONE required element: an inner-class wrapper
+                        els.append([rng.choice(enames), None, [[n1, rng.choice([None, rng.choice(names)]), None, rng.choice(["1", "+"])]], "1"])
+                    else:
+                        els.append([rng.choice(enames), None, inner_els])
                 else:
                     els.append(rng.choice(enames))
             # the same element name twice in a sequence is legal only with the same type: keep the first
@@ -2431,7 +2745,7 @@ def gen_pipeline(rng, tier):
                 t["base"] = names[rng.randrange(0, k)]
             types.append(t)
         opts = {"style": rng.choice(STYLES), "compound": rng.random() < 0.5, "unnest": rng.random() < 0.4,
-                "wrapper": rng.random() < 0.15}
+                "wrapper": rng.random() < 0.3}
         for k2, pr in (("frozen", 0.2), ("slots", 0.2), ("relative_imports", 0.3), ("generic_collections", 0.2)):
             if rng.random() < pr:
                 opts[k2] = True
@@ -2575,6 +2889,7 @@ ORACLES = [
     Oracle("c07.fresh", gen_oracle_fresh, oracle_fresh, from_ops=("names.unique_name", "names.next_qname", "names.next_available_name"), adapt=adapt_fresh),
     Oracle("c07.inners", gen_rename_inners, oracle_inners, covered_inners, from_ops=("names.rename_inners",)),
     Oracle("c07.conflict", gen_resolve_conflict, oracle_conflict, covered_conflict, from_ops=("names.resolve_conflict",)),
+    Oracle("c07.wrapper", gen_wrapper_fields, oracle_wrapper, covered_wrapper, from_ops=("names.wrapper_fields",)),
     Oracle("c07.circular", gen_detect_circular, oracle_circular, from_ops=("names.detect_circular",)),
     Oracle("c07.pipeline", gen_pipeline, oracle_pipeline, covered_pipeline, from_ops=("c07.e2e", "names.e2e_fields"),
            adapt=lambda op, a: a if op == "c07.e2e" else adapt_pipeline(op, a)),
@@ -2612,7 +2927,19 @@ def _f_field_like_inner():
     return bool(hit) and covered_pipeline(a, hit[0], msgs) == "C07-field-named-like-inner-class", (hit or msgs or ["generation, import and binding succeed"])[0][:200]
 
 
+def _f_wrapper_cycle():
+    """X = { a1: anonymous { n: N, repeating } }, N = { x: X, optional }, wrapper_fields + unnest_classes: the
+    generator gives up with 'Circular Dependencies Found'; without wrapper_fields the source generates"""
+    a = {"kind": "xsd", "opts": {"wrapper": True, "unnest": True}, "spec": {"tns": None, "enums": [], "elements": [{"name": "r", "type": "X"}],
+         "types": [{"name": "X", "elements": [["a1", None, [["n", "N", None, "+"]], "1"]], "attributes": [], "abstract": False},
+                   {"name": "N", "elements": [["x", "X"]], "attributes": [], "abstract": False}]}}
+    msgs = pipeline_failures(a)
+    hit = [m for m in msgs if "Circular Dependencies Found" in m]
+    return bool(hit) and covered_pipeline(a, hit[0], msgs) == "C07-wrapper-field-drops-circular-flag", (hit or msgs or ["generation, import and binding succeed"])[0][:200]
+
+
 FINDINGS = {
+    "C07-wrapper-field-drops-circular-flag": _f_wrapper_cycle,
     "C07-safe-prefix-collision": _f_prefix_collision,
     "C07-field-named-like-inner-class": _f_field_like_inner,
 }
@@ -2637,7 +2964,8 @@ LEVEL_TEXT = (
     "for duplicate qnames, cycles or unprovided dependencies; DetectCircularReferences.is_circular decides reachability and always "
     "answers, after the handler no plain reference lies on a cycle (any processing order), flags are only set on real cycles, the "
     "remaining plain references are acyclic; inner classes of one class get different slugs; the class created for an ambiguous choice "
-    "lives in its source's namespace; final qnames are unique. The model is tied to /repo by a differential check (23 ops, incl. the resolver model of the layout theorems) and the "
+    "lives in its source's namespace; final qnames are unique; after CreateWrapperFields the fields of a class have pairwise different "
+    "slugs whenever anything was wrapped, whatever kind of class the wrapper came from (wrapper_fields_slugs_distinct). The model is tied to /repo by a differential check (24 ops, incl. the resolver model of the layout theorems) and the "
     "property itself is evaluated end to end on the REAL generator (transformer.process, all handlers, CodeWriter, validate_imports; "
     "stand-in only for the Jinja2 templates): files compile, no duplicate members / inner / module classes, the package imports (an "
     "ImportError or a consistency error hidden behind CodegenError counts as failure for valid sources), every class binds and "
